@@ -727,6 +727,16 @@ func orderOf(v *Val) string {
 			return "param" // chosen by the caller: judged where a constant is passed (inlined into every message codec)
 		}
 	}
+	// a field of a descriptor record handed in as a parameter (`f.Order` of a FrameSpec value): chosen by the caller too
+	if v.Op == "fieldval" && t != nil && types.TypeString(t, nil) == "encoding/binary.ByteOrder" {
+		r := v
+		for r != nil && r.Op == "fieldval" && len(r.Args) > 0 {
+			r = stripCT(r.Args[0])
+		}
+		if r != nil && (r.Op == "param" || (r.Op == "init" && len(r.Args) == 1 && addrRoot(r.Args[0]) != nil && addrRoot(r.Args[0]).Op == "param")) {
+			return "param"
+		}
+	}
 	if t == nil {
 		return "?"
 	}
